@@ -54,6 +54,8 @@ func runC14(p *Prog, r *Report) {
 	c14Metadata(p, r)
 	c14Conversion(p, r)
 	c20Index(p, r)
+	freshPerIteration(p, r, "D4-conversion", "converter", "ToCDX", "Component")
+	freshPerIteration(p, r, "D4-conversion", "converter", "ToSPDX23", "Package")
 	r.Rule("D7-wellformed-omissions", "records without a name or version are left out exactly where the formats' audited omissions say (shared with C03 D3)")
 	c03Omissions(p, r, "D7-wellformed-omissions", p.FuncsIn(c03Packages...))
 	for _, fn := range p.FuncsIn("purl", "packageindex", "converter", "binary/proto") {
